@@ -100,6 +100,9 @@ type Ctl interface {
 	Stores() []InformerSpec
 	Queue() *RecQueue
 	ParentStore() cache.Store
+	// SyncInfo describes, for the trace, what the controller claims for this parent:
+	// {"sel": {"ml": {...}, "me": [...]}, "selOK": bool, "marker": "<decorator name>"}
+	SyncInfo(parent Obj) Obj
 }
 
 type CtlFactory func(w *World, sc *Scenario, actor string) (Ctl, error)
@@ -122,6 +125,8 @@ type actorState struct {
 	key      string
 	fpBase   map[string]map[string]string
 	nreq     int
+	parked   *Pending
+	tcount   map[string]int
 }
 
 // Runner executes scenarios against real controllers.
@@ -315,12 +320,19 @@ func (r *Runner) startSync(as *actorState, key string) error {
 	as.sid++
 	as.key = key
 	as.nreq = 0
+	as.tcount = map[string]int{}
 	as.fpBase = r.fingerprints(as)
 	parent := Absent()
+	var parentObj Obj
 	if x, ok, _ := as.ctl.ParentStore().GetByKey(parentStoreKey(key)); ok {
-		parent = Project(toObj(x))
+		parentObj = toObj(x)
+		parent = Project(parentObj)
 	}
-	r.Trace.Emit(Obj{"ev": "SyncStart", "a": as.name, "base": as.base, "sid": as.sid, "key": key, "parent": parent, "cache": r.cacheDump(as)})
+	ev := Obj{"ev": "SyncStart", "a": as.name, "base": as.base, "sid": as.sid, "key": key, "parent": parent, "cache": r.cacheDump(as)}
+	for k, v := range as.ctl.SyncInfo(parentObj) {
+		ev[k] = v
+	}
+	r.Trace.Emit(ev)
 	as.ctl.Queue().TakeCalls()
 	as.ctl.Queue().Feed(key)
 	as.running = true
@@ -386,9 +398,16 @@ func (r *Runner) stepOne(as *actorState) (ended bool, err error) {
 	if !as.running {
 		return true, nil
 	}
+	if as.parked != nil {
+		p := as.parked
+		as.parked = nil
+		p.Release()
+		return false, nil
+	}
 	select {
 	case p := <-as.arrivals:
 		as.nreq++
+		as.tcount[p.ResKey+"|"+p.Name]++
 		p.Release()
 		return false, nil
 	case res := <-as.done:
@@ -397,6 +416,41 @@ func (r *Runner) stepOne(as *actorState) (ended bool, err error) {
 	case <-time.After(r.timeout()):
 		return false, fmt.Errorf("actor %s: neither request nor sync end within timeout (dead driver)", as.name)
 	}
+}
+
+// until releases requests of the actor until its nth request (since sync start) on the
+// object arrives, and leaves that one parked.  If the sync ends first, that is drift.
+func (r *Runner) until(as *actorState, resKey, name string, nth int) error {
+	if nth <= 0 {
+		nth = 1
+	}
+	tk := resKey + "|" + name
+	for as.running {
+		if as.parked != nil {
+			p := as.parked
+			as.parked = nil
+			p.Release()
+			continue
+		}
+		select {
+		case p := <-as.arrivals:
+			as.nreq++
+			as.tcount[p.ResKey+"|"+p.Name]++
+			if p.ResKey == resKey && p.Name == name && as.tcount[tk] >= nth {
+				as.parked = p
+				return nil
+			}
+			p.Release()
+		case res := <-as.done:
+			r.endSync(as, res)
+			r.Drift++
+			return nil
+		case <-time.After(r.timeout()):
+			return fmt.Errorf("actor %s: neither request nor sync end within timeout (dead driver)", as.name)
+		}
+	}
+	r.Drift++
+	return nil
 }
 
 func (r *Runner) finish(as *actorState) error {
@@ -410,6 +464,11 @@ func (r *Runner) finish(as *actorState) error {
 
 // drain releases everything a killed actor still tries; its requests fail.
 func (r *Runner) drain(as *actorState) {
+	if as.parked != nil {
+		p := as.parked
+		as.parked = nil
+		p.Release()
+	}
 	for as.running {
 		select {
 		case p := <-as.arrivals:
@@ -452,6 +511,25 @@ func (r *Runner) step(st Obj) error {
 				r.Drift++
 				break
 			}
+		}
+		return nil
+	case "until":
+		// run the actor until it is parked at its nth request on the given object
+		if as == nil {
+			return fmt.Errorf("unknown actor %q", a)
+		}
+		return r.until(as, ResKeyOf(AsStr(st["res"])), AsStr(st["name"]), AsInt(st["nth"]))
+	case "do":
+		// run the actor up to and including its nth request on the given object
+		if as == nil {
+			return fmt.Errorf("unknown actor %q", a)
+		}
+		if err := r.until(as, ResKeyOf(AsStr(st["res"])), AsStr(st["name"]), AsInt(st["nth"])); err != nil {
+			return err
+		}
+		if as.parked != nil {
+			_, err := r.stepOne(as)
+			return err
 		}
 		return nil
 	case "run":
